@@ -16,6 +16,10 @@ pub enum Kind {
     Plain,
     /// a word the code masks to 160 bits
     Addr,
+    /// a mapping whose value is one word holding several fields (a struct that fits a slot): written by one
+    /// store of f0 | f1<<o1 | ..., each field read back by shift and mask; `rev_args` takes the fields'
+    /// values from the call-data words in reverse order
+    MappingStruct { key_addr: bool, fields: Vec<(usize, usize)>, rev_args: bool },
     /// a plain word whose stored value is a masked input scaled by a constant that is not a power of two
     /// (decimals, seconds per day): `slot = (v & mask(width)) * factor`, read back as `slot / factor`
     Scaled { width: usize, factor: W },
@@ -131,7 +135,12 @@ pub fn gen_truth(ch: &mut Chooser, max_vars: usize) -> Truth {
     let mut used = vec![];
     let mut vars = vec![];
     for _ in 0..n {
-        let kind = match ch.below(11) {
+        let kind = match ch.below(12) {
+            11 => Kind::MappingStruct {
+                key_addr: ch.chance(1, 2),
+                fields:   gen_fields(ch),
+                rev_args: ch.chance(1, 2),
+            },
             10 => Kind::Scaled {
                 width:  *ch.pick(&[8usize, 32, 64, 128, 160]),
                 factor: *ch.pick(&[
@@ -311,6 +320,19 @@ fn emit_read(b: &mut B, v: &Var, field: usize) {
             b.emit(asm::SLOAD);
             ret_top(b);
         }
+        Kind::MappingStruct { key_addr, fields, .. } => {
+            let (o, w) = fields[field % fields.len()];
+            mapping_location(b, v.slot, &[*key_addr], &None);
+            b.emit(asm::SLOAD);
+            if o > 0 {
+                b.push(W::pow2(o as u32));
+                b.emit(asm::SWAP1);
+                b.emit(asm::DIV);
+            }
+            b.push(mask(w));
+            b.emit(asm::AND);
+            ret_top(b);
+        }
         Kind::Scaled { width, factor } => {
             b.push(*factor);
             b.push(v.slot);
@@ -376,6 +398,26 @@ fn emit_read(b: &mut B, v: &Var, field: usize) {
 
 fn emit_write(b: &mut B, v: &Var, field: usize) {
     match &v.kind {
+        Kind::MappingStruct { key_addr, fields, rev_args } => {
+            let n = fields.len();
+            for (i, (o, w)) in fields.iter().enumerate() {
+                // call-data word 0 is the key
+                let a = if *rev_args { n - i } else { i + 1 };
+                arg(b, a, false);
+                b.push(mask(*w));
+                b.emit(asm::AND);
+                if *o > 0 {
+                    b.push(W::pow2(*o as u32));
+                    b.emit(asm::MUL);
+                }
+                if i > 0 {
+                    b.emit(asm::OR);
+                }
+            }
+            mapping_location(b, v.slot, &[*key_addr], &None);
+            b.emit(asm::SSTORE);
+            b.emit(asm::STOP);
+        }
         Kind::Scaled { width, factor } => {
             value(b, v, 0, false);
             b.push(mask(*width));
@@ -470,6 +512,7 @@ pub fn branches(t: &Truth) -> Vec<Branch> {
     for (i, v) in t.vars.iter().enumerate() {
         let (nfields, whole) = match &v.kind {
             Kind::Packed { fields, whole, .. } => (fields.len(), *whole != 0),
+            Kind::MappingStruct { fields, .. } => (fields.len(), true),
             _ => (1, false),
         };
         for f in 0..nfields {
